@@ -614,6 +614,12 @@ class Nullness:
             cv = self._const(v, n.frame)
             if cv is not None:
                 return self._set(st, '$ret', cv)
+            if isinstance(v, _ast.Name) and \
+                    self._module_identity(v, n.frame) is not None:
+                # one particular object of the module (a sentinel, a canned
+                # reply): identity tests against it can be decided
+                return self._set(st, '$ret',
+                                 self._module_identity(v, n.frame))
             if isinstance(v, _ast.Name) and self._module_object(v, n.frame):
                 # a canned object of the module (bad_sequence = Reply(...))
                 return self._set(st, '$ret', 'obj')
@@ -811,6 +817,9 @@ def _nullness_value(self, x, frame, st):
     cv = self._const(x, frame)
     if cv is not None:
         return cv
+    mi = self._module_identity(x, frame)
+    if mi is not None:
+        return mi
     q = path_of(x, frame)
     if q:
         return self._get(st, q)
@@ -844,7 +853,8 @@ def _nullness_eval(self, t, frame, st):
                         isinstance(y, tuple) for y in tv):
                     members = ['none' if y is None else ('c', repr(y))
                                for y in tv]
-                    if lv is None or lv in ('obj', 'obj?'):
+                    if lv is None or lv in ('obj', 'obj?') or \
+                            (isinstance(lv, tuple) and lv[0] == 'm'):
                         return None
                     r = lv in members
                     return r if isinstance(op, _ast.In) else not r
@@ -853,6 +863,7 @@ def _nullness_eval(self, t, frame, st):
                 return None
             members = [self._const(x, frame) for x in rt.elts]
             if lv is None or lv in ('obj', 'obj?') or \
+                    (isinstance(lv, tuple) and lv[0] == 'm') or \
                     any(m is None for m in members):
                 return None
             r = lv in members
@@ -861,6 +872,21 @@ def _nullness_eval(self, t, frame, st):
         if lv is None or rv is None:
             return None
         known = lambda v: v == 'none' or isinstance(v, tuple)
+        ident = lambda v: isinstance(v, tuple) and v[0] == 'm'
+        if isinstance(op, (_ast.Is, _ast.IsNot)) and (
+                ident(lv) or ident(rv)):
+            if ident(lv) and ident(rv):
+                r = lv == rv
+            elif 'obj' in (lv, rv) or 'obj?' in (lv, rv):
+                return None          # some object: may be that one
+            else:
+                r = False            # None / a literal is never that object
+            return r if isinstance(op, _ast.Is) else not r
+        if isinstance(op, (_ast.Eq, _ast.NotEq)) and (
+                ident(lv) or ident(rv)):
+            if ident(lv) and lv == rv:
+                return isinstance(op, _ast.Eq)
+            return None
         if isinstance(op, (_ast.Is, _ast.IsNot)):
             if rv == 'none' and lv in ('obj', 'none') or (
                     rv == 'none' and isinstance(lv, tuple)):
@@ -879,7 +905,7 @@ def _nullness_eval(self, t, frame, st):
     v = self._value(t, frame, st)
     if v == 'none':
         return False
-    if isinstance(v, tuple):
+    if isinstance(v, tuple) and v[0] == 'c':
         try:
             return bool(eval(v[1], {'__builtins__': {}}))
         except Exception:
@@ -912,6 +938,47 @@ def _nullness_module_object(self, v, frame):
         _ast.unparse(val.func).rpartition('.')[2][:1].isupper()
 
 
+def _nullness_module_identity(self, v, frame):
+    """('m', 'module.NAME') when the name denotes ONE object made at module
+    level (NAME = object() / SomeClass(...), bound once, never declared
+    global), here or where it is imported from; None otherwise.  Two such
+    values are the same object exactly when the names agree."""
+    import ast as _ast
+    from ..model import walk_own as _wo
+    if self.e is None or not isinstance(v, _ast.Name):
+        return None
+    fn = frame.ctx.func
+    if v.id in fn.params or any(
+            isinstance(x, _ast.Name) and x.id == v.id and
+            isinstance(x.ctx, (_ast.Store, _ast.Del)) for x in _wo(fn.node)):
+        return None
+    m, nm = fn.module, v.id
+    if nm not in m.globals and nm in m.imports:
+        src, _, nm = m.imports[nm].rpartition('.')
+        m = self.e.p.modules.get(src)
+    if m is None:
+        return None
+    binds = [st for st in m.tree.body if isinstance(st, _ast.Assign) and any(
+        isinstance(x, _ast.Name) and x.id == nm
+        for t in st.targets for x in _ast.walk(t))]
+    other = [x for x in _ast.walk(m.tree)
+             if (isinstance(x, _ast.Global) and nm in x.names) or
+             (isinstance(x, (_ast.AugAssign, _ast.AnnAssign)) and
+              isinstance(x.target, _ast.Name) and x.target.id == nm and
+              x in m.tree.body)]
+    if len(binds) != 1 or other or len(binds[0].targets) != 1 or \
+            not isinstance(binds[0].targets[0], _ast.Name):
+        return None
+    val = binds[0].value
+    if isinstance(val, _ast.Call) and isinstance(
+            val.func, (_ast.Name, _ast.Attribute)):
+        cn = _ast.unparse(val.func).rpartition('.')[2]
+        if cn == 'object' or cn[:1].isupper():
+            return ('m', m.name + '.' + nm)
+    return None
+
+
+Nullness._module_identity = _nullness_module_identity
 Nullness._module_object = _nullness_module_object
 Nullness._const = _nullness_const
 Nullness._value = _nullness_value
